@@ -1,0 +1,131 @@
+// SPDX-FileCopyrightText: 2014-2024 caixw
+//
+// SPDX-License-Identifier: MIT
+
+//go:build verif
+
+// Contracts for package tree, read by the verification tooling under /verif.
+// This file contains comments only and is excluded from normal builds.
+
+package tree
+
+// ---------------------------------------------------------------- invariants (WFsafe of DESIGN.md section 3)
+
+//@ opaque pred kidsOK(n *node) = forall i int :: 0 <= i && i < len(n.children) ==>
+//@      n.children[i] != nil && allocated(n.children[i]) && segOK(n.children[i].segment) && len(n.children[i].segment.Value) > 0
+// children are ordered by kind: literal < interceptor < regexp < named (the documented priority, C02)
+//@ opaque pred sortedKinds(n *node) = forall i int, j int :: 0 <= i && i < j && j < len(n.children) ==>
+//@      n.children[i].segment.Type <= n.children[j].segment.Type
+// the first-byte index only points at literal children, inside the child slice; with an index present the first child is literal
+//@ opaque pred idxOK(n *node) = len(n.indexes) > 0 ==> (len(n.children) >= 5 && n.children[0].segment.Type == 0 &&
+//@      (forall b byte :: in(b, n.indexes) ==> 0 <= n.indexes[b] && n.indexes[b] < len(n.children) && n.children[n.indexes[b]].segment.Type == 0))
+//@ opaque pred hmOK(n *node) = len(n.handlers) > 0 ==> in("", n.handlers) && in("OPTIONS", n.handlers)
+//@ opaque pred nodeSafe(n *node) = n.root != nil && segOK(n.segment) && kidsOK(n) && sortedKinds(n) && idxOK(n) && hmOK(n)
+//@ opaque pred allSafe() = forall m *node :: nodeSafe(m)
+//@ opaque pred allSafeExcept(x *node) = forall m *node :: m != x ==> nodeSafe(m)
+//@ pred treeOK(t *Tree) = t != nil && t.node != nil && allocated(t.node) && icOK(t.interceptors) && t.methods != nil &&
+//@      t.optionsBuilder != nil && t.methodNotAllowedBuilder != nil
+
+// ---------------------------------------------------------------- node.go: read-only
+
+//@ fn node.size
+//@   requires n != nil
+//@   nopanic
+//@   ensures result == len(n.handlers)
+//
+//@ fn node.Pattern
+//@   requires n != nil
+//@   nopanic
+//@   ensures result == n.pattern
+//
+//@ fn node.priority
+//@   requires n != nil && n.segment != nil && 0 <= n.segment.Type && n.segment.Type <= 3
+//@   nopanic
+//@   ensures [C02] kind-major: result == n.segment.Type * 10 + ((len(n.children) == 0) ? 1 : 0) + (n.segment.Endpoint ? 1 : 0)
+//
+// matchChildren: depth-first search below n. A failed search restores the path and leaves no parameter behind.
+//@ fn node.matchChildren
+//@   requires n != nil && allocated(n) && ctx != nil && allSafe()
+//@   ensures [C01,C05] found: result != nil ==> allocated(result) && len(result.handlers) > 0 && ctx.Path == ""
+//@   ensures [C01] restore-path: result == nil ==> ctx.Path == old(ctx.Path)
+//@   ensures [C01] no-leftover: result == nil ==> (forall x string :: in(x, ctx.params) ==> old(in(x, ctx.params)) && ctx.params[x] == old(ctx.params[x]))
+//@   inv 1 [C05] idx: 0 <= i
+//@   inv 1 [C01] path: ctx.Path == old(ctx.Path)
+//@   inv 1 [C01] no-leftover: forall x string :: in(x, ctx.params) ==> old(in(x, ctx.params)) && ctx.params[x] == old(ctx.params[x])
+//
+//@ fn node.find
+//@   requires n != nil && allSafe()
+//@   nopanic
+//@   ensures [C10,C03] allocated: result != nil ==> allocated(result)
+//@   inv 1 [C05] bound: -1 <= rangeindex && rangeindex < len(n.children)
+//
+//@ fn Tree.Find
+//@   requires treeOK(tree) && allSafe()
+//@   nopanic
+//@   ensures [C10,C03] allocated: result != nil ==> allocated(result)
+//
+//@ fn Tree.Name
+//@   requires tree != nil
+//@   nopanic
+//@   ensures result == tree.name
+
+// ---------------------------------------------------------------- tree.go: lookup
+
+// Handler: the node/handler pair handed to the router.
+//@ fn Tree.Handler
+//@   requires treeOK(tree) && ctx != nil && allSafe()
+//@   ensures [C18] trace: tree.hasTrace && method == "TRACE" ==> result2 && result1 == tree.trace && result0 == box(tree.node)
+//@   ensures [C01,C05] served: result2 && !(tree.hasTrace && method == "TRACE") ==> typeis(result0, "*node") &&
+//@        allocated(unbox(result0, "*node")) && in(method, unbox(result0, "*node").handlers) && result1 == unbox(result0, "*node").handlers[method]
+//@   ensures [C01,C05] not-allowed: !result2 && result0 != nil ==> typeis(result0, "*node") && allocated(unbox(result0, "*node")) &&
+//@        !in(method, unbox(result0, "*node").handlers) && in("", unbox(result0, "*node").handlers) && result1 == unbox(result0, "*node").handlers[""]
+//@   ensures [C01] not-found: result0 == nil ==> !result2 && result1 == tree.notFound
+//@   ensures [C05,C11] node-when-served: result2 ==> result0 != nil
+//@   ensures [C01] router-name: ctx.routerName == tree.name
+
+// ---------------------------------------------------------------- node.go: structure
+
+// priority as a specification function (same expression as node.priority)
+//@ pred prio(n *node) = n.segment.Type * 10 + ((len(n.children) == 0) ? 1 : 0) + (n.segment.Endpoint ? 1 : 0)
+//
+// The comparison closure of node.sort, and its lifting to calls made by slices.SortStableFunc.
+//@ fn node.sort$1
+//@   requires a != nil && b != nil && a.segment != nil && b.segment != nil && 0 <= a.segment.Type && a.segment.Type <= 3 && 0 <= b.segment.Type && b.segment.Type <= 3
+//@   nopanic
+//@   ensures [C02] cmp: result == prio(a) - prio(b)
+//@ axiom forall a *node, b *node :: pure0("slices.cmp", funcval("tree.node.sort$1"), a, b) == prio(a) - prio(b)
+//
+//@ fn node.buildIndexes
+//@   requires n != nil && kidsOK(n) && sortedKinds(n)
+//@   nopanic
+//@   modifies tree.node.indexes: n
+//@   ensures [C03,C05,C01] index-ok: idxOK(n)
+//@   inv 1 [C05] bound: -1 <= rangeindex && rangeindex < len(n.children) && n.indexes != nil && len(n.children) >= 5
+//@   inv 1 [C03,C05,C01] partial: forall b byte :: in(b, n.indexes) ==> 0 <= n.indexes[b] && n.indexes[b] <= rangeindex && n.children[n.indexes[b]].segment.Type == 0
+//
+//@ fn node.newChild
+//@   requires n != nil && n.root != nil && segOK(s) && len(s.Value) > 0
+//@   nopanic
+//@   modifies tree.node.children: n
+//@   ensures [C03] fresh: result != nil && fresh(result) && allocated(result) && result.root == n.root && result.parent == n && result.segment == s &&
+//@        result.pattern == n.pattern + s.Value && result.handlers == nil && result.indexes == nil && len(result.children) == 0 && result.methodIndex == 0
+//@   ensures [C03] appended: len(n.children) == old(len(n.children)) + 1 && n.children[old(len(n.children))] == result &&
+//@        (forall i int :: 0 <= i && i < old(len(n.children)) ==> n.children[i] == old(n.children[i]))
+//
+//@ fn removeNodes
+//@   requires forall i int :: 0 <= i && i < len(nodes) ==> nodes[i] != nil && nodes[i].segment != nil
+//@   nopanic
+//@   ensures [C03] shorter: len(result) == len(nodes) || len(result) == len(nodes) - 1
+//@   ensures [C03] subseq: forall k int :: 0 <= k && k < len(result) ==> (result[k] == old(nodes[k]) || result[k] == old(nodes[k + 1]))
+//@   ensures [C03] removed: len(result) == len(nodes) - 1 ==> (exists i int :: 0 <= i && i < len(nodes) && old(nodes[i]).segment.Value == pattern &&
+//@        (forall k int :: 0 <= k && k < i ==> result[k] == old(nodes[k])) && (forall k int :: i <= k && k < len(result) ==> result[k] == old(nodes[k + 1])))
+//@   ensures [C03] absent: len(result) == len(nodes) ==> result == nodes && (forall i int :: 0 <= i && i < len(nodes) ==> nodes[i].segment.Value != pattern)
+//@   inv 1 [C05] bound: -1 <= rangeindex && rangeindex < len(nodes)
+//@   inv 1 [C03] nomatch: forall i int :: 0 <= i && i <= rangeindex ==> nodes[i].segment.Value != pattern
+//
+//@ fn node.sort
+//@   requires n != nil && kidsOK(n)
+//@   modifies tree.node.indexes: n
+//@   atcall slices.SortStableFunc [C05] elements: forall i int :: 0 <= i && i < len(arg0) ==> arg0[i] != nil && arg0[i].segment != nil && 0 <= arg0[i].segment.Type && arg0[i].segment.Type <= 3
+//@   ensures [C02,C03] kids: kidsOK(n) && sortedKinds(n) && idxOK(n) && len(n.children) == old(len(n.children))
+//@   ensures [C03] permutation: forall j int :: 0 <= j && j < len(n.children) ==> (exists k int :: 0 <= k && k < len(n.children) && n.children[k] == old(n.children[j]))
